@@ -15,12 +15,6 @@ import (
 )
 
 func init() {
-	register(&Rule{ID: "P-LEX-STEP", Props: []string{"C16", "C03", "C04", "C11"}, Floor: 20,
-		Doc: "the lexer advances its position only by sizes returned from decoding a rune: no position arithmetic with a non-zero constant (stepping one byte lands inside a multi-byte character or past the end of the input)",
-		Run: rulePLexStep})
-	register(&Rule{ID: "P-SCAN", Props: []string{"C16", "C04", "C03"}, Floor: 3,
-		Doc: "each delimited-literal scanner stops at the same delimiter that dispatched to it, treats only the backslash specially, and after a backslash decodes (bounds-checked) and skips exactly one more rune, returning the decode error",
-		Run: rulePScan})
 	register(&Rule{ID: "P-JSON-LITERAL", Props: []string{"C16", "C04", "C05"}, Floor: 5,
 		Doc: "a backtick literal is decoded from the text with every escaped backtick replaced (strings.ReplaceAll), by a json.Decoder on which UseNumber is called before Decode, and a success is returned only after Decoder.Token reported io.EOF (nothing follows the value); json.Unmarshal is used only into *string or *json.Number",
 		Run: rulePJSONLiteral})
@@ -427,10 +421,25 @@ func escapeTable(p *Program, fd *ast.FuncDecl) (map[int64]*escClause, *escClause
 
 func rulePEscapeTable(p *Program, r *Reporter) {
 	// raw strings
-	if fd := p.FuncDecl(p.Parser, "", "parseStringLiteral"); fd != nil {
+	if fd := declOf(literalHelpers(p)["string"]); fd != nil {
 		tbl, dflt, sw := escapeTable(p, fd)
-		if sw == nil {
-			r.Unknown(fd.Pos(), "raw-string escapes", "escape switch not found")
+		if pairs, pos, ok := replacerPairs(p, literalHelpers(p)["string"]); sw == nil && ok {
+			// table form: strings.NewReplacer(old, new, ...) applied to the text
+			want := map[string]string{"\\\\": "\\", "\\'": "'"}
+			good := len(pairs) == len(want)
+			for o, n := range want {
+				if pairs[o] != n {
+					good = false
+				}
+			}
+			if good {
+				r.OK(pos, "raw-string escape table", "a replacer that maps exactly \\\\ to \\ and \\' to ' (left to right, replaced text is not rescanned); every other backslash is kept")
+				r.OK(pos, "raw-string other escapes", "a backslash before any other character is kept together with that character")
+			} else {
+				r.Bad(pos, "raw-string escape table", fmt.Sprintf("the replacer maps %v; the grammar unescapes exactly \\\\ and \\'", pairs))
+			}
+		} else if sw == nil {
+			r.Unknown(fd.Pos(), "raw-string escapes", "neither an escape switch nor a replacer table found")
 		} else {
 			want := map[int64]string{'\'': "39", '\\': "92"}
 			for c, w := range want {
@@ -454,10 +463,10 @@ func rulePEscapeTable(p *Program, r *Reporter) {
 			}
 		}
 	} else {
-		r.Unknown(token.NoPos, "raw-string escapes", "parseStringLiteral not found")
+		r.Unknown(token.NoPos, "raw-string escapes", "the function decoding raw string literals was not found")
 	}
 	// quoted identifiers
-	if fd := p.FuncDecl(p.Parser, "", "parseQuotedIdentifier"); fd != nil {
+	if fd := declOf(literalHelpers(p)["quoted"]); fd != nil {
 		tbl, dflt, sw := escapeTable(p, fd)
 		if sw == nil {
 			r.Unknown(fd.Pos(), "quoted-identifier escapes", "escape switch not found")
@@ -508,7 +517,7 @@ func rulePEscapeTable(p *Program, r *Reporter) {
 			r.Bad(sw.Pos(), "quoted-identifier other escapes", "an unknown escape in a quoted identifier is not rejected")
 		}
 	} else {
-		r.Unknown(token.NoPos, "quoted-identifier escapes", "parseQuotedIdentifier not found")
+		r.Unknown(token.NoPos, "quoted-identifier escapes", "the function decoding quoted identifiers was not found")
 	}
 }
 
@@ -595,4 +604,79 @@ func firstDiff(a, b string) string {
 		}
 	}
 	return "different length"
+}
+
+
+// replacerPairs: fn applies a package-level strings.Replacer; returns its (old -> new) pairs from the initialiser.
+func replacerPairs(p *Program, fn *ssa.Function) (map[string]string, token.Pos, bool) {
+	if fn == nil {
+		return nil, token.NoPos, false
+	}
+	var g *ssa.Global
+	for _, b := range fn.Blocks {
+		for _, in := range b.Instrs {
+			c, ok := in.(*ssa.Call)
+			if !ok || calleeFullName(&c.Call) != "(*strings.Replacer).Replace" || len(c.Call.Args) == 0 {
+				continue
+			}
+			if ld, ok := c.Call.Args[0].(*ssa.UnOp); ok {
+				if gg, ok := ld.X.(*ssa.Global); ok {
+					g = gg
+				}
+			}
+		}
+	}
+	if g == nil || g.Pkg == nil {
+		return nil, token.NoPos, false
+	}
+	init := g.Pkg.Func("init")
+	if init == nil {
+		return nil, token.NoPos, false
+	}
+	for _, b := range init.Blocks {
+		for _, in := range b.Instrs {
+			st, ok := in.(*ssa.Store)
+			if !ok || st.Addr != ssa.Value(g) {
+				continue
+			}
+			c, ok := st.Val.(*ssa.Call)
+			if !ok || calleeFullName(&c.Call) != "strings.NewReplacer" || len(c.Call.Args) != 1 {
+				return nil, token.NoPos, false
+			}
+			sl, ok := c.Call.Args[0].(*ssa.Slice)
+			if !ok {
+				return nil, token.NoPos, false
+			}
+			vals := map[int64]string{}
+			for _, ref := range *sl.X.Referrers() {
+				ia, ok := ref.(*ssa.IndexAddr)
+				if !ok {
+					continue
+				}
+				ic, ok := ia.Index.(*ssa.Const)
+				if !ok {
+					return nil, token.NoPos, false
+				}
+				idx, _ := constant.Int64Val(ic.Value)
+				for _, r2 := range *ia.Referrers() {
+					if s2, ok := r2.(*ssa.Store); ok {
+						if sc, ok := s2.Val.(*ssa.Const); ok && sc.Value != nil && sc.Value.Kind() == constant.String {
+							vals[idx] = constant.StringVal(sc.Value)
+						} else {
+							return nil, token.NoPos, false
+						}
+					}
+				}
+			}
+			pairs := map[string]string{}
+			for i := int64(0); i+1 < int64(len(vals)); i += 2 {
+				pairs[vals[i]] = vals[i+1]
+			}
+			if len(vals)%2 != 0 {
+				return nil, token.NoPos, false
+			}
+			return pairs, c.Pos(), true
+		}
+	}
+	return nil, token.NoPos, false
 }
